@@ -38,15 +38,25 @@ class GeminiClientProtocol(asyncio.Protocol):
         meta: Response metadata string.
     """
 
-    def __init__(self, url: str, response_future: asyncio.Future):
+    def __init__(
+        self,
+        url: str,
+        response_future: asyncio.Future,
+        decode_body: bool = True,
+    ):
         """Initialize the client protocol.
 
         Args:
             url: The Gemini URL to request.
             response_future: Future to set with the final GeminiResponse.
+            decode_body: If True (default), text/* bodies are decoded to str
+                using the declared charset. If False, every body is returned
+                as the raw bytes the server sent (used by the reverse proxy,
+                which must relay bodies unchanged).
         """
         self.url = url
         self.response_future = response_future
+        self.decode_body = decode_body
         self.transport: asyncio.Transport | None = None
         self.buffer = b""
         self.header_received = False
@@ -199,7 +209,7 @@ class GeminiClientProtocol(asyncio.Protocol):
             mime_type = (self.meta or "").split(";")[0].strip().lower()
             is_text = mime_type.startswith("text/") or mime_type == ""
 
-            if is_text:
+            if is_text and self.decode_body:
                 # Get charset from meta if specified, default to utf-8
                 charset = "utf-8"
                 # Parse charset from meta (e.g., "text/gemini; charset=iso-8859-1")
